@@ -53,6 +53,11 @@ class PremiseBroken(Exception):
     """A (shrunk or replayed) stimulus left the premise of the property; the run decides nothing."""
 
 
+class Skip(Exception):
+    """The run cannot evaluate this property (e.g. the design did not elaborate and rejection is another
+    property's business).  Counted, never ok-by-default: too many skips make the check fail as a harness error."""
+
+
 class Inconclusive(Exception):
     """Watchdog fired / run could not be completed.  Never counted as ok."""
 
@@ -110,6 +115,7 @@ class Scenario:
     transactional = True  # wrap in TransactronContextElaboratable
     simulated = True  # False: order-of-operations scenario without a clock (run_direct)
     check_netlist = False  # C10: build the netlist of the simulated design and check comb cycles
+    elab_failure_is_violation = True  # False: an elaboration error is another property's business (C11)
 
     def __init__(self, cfg: dict):
         self.cfg = cfg
@@ -213,6 +219,9 @@ def run_scenario(prop, cfg: dict, salt: int, rng: random.Random | None, recorded
         res["status"] = "violation"
         res["violation"] = {"kind": v.kind, "cycle": res["cycles"], "detail": v.detail, "info": _canon(v.info)}
         hasher.update(repr(("violation", v.kind, res["cycles"])).encode())
+    except Skip as e:
+        res["status"] = "skipped"
+        res["violation"] = {"kind": "skipped", "cycle": res["cycles"], "detail": str(e)}
     except PremiseBroken as e:
         res["status"] = "premise"
         res["violation"] = {"kind": "premise", "cycle": res["cycles"], "detail": str(e)}
@@ -280,15 +289,18 @@ def _execute(prop, scen: Scenario, cfg, rng, recorded, res, hasher, keep_log, ma
                 tm = TransactionManager(scheduler_by_name(cfg.get("sched", "eager")))
                 top = TransactronContextElaboratable(top, dependency_manager=dm, transaction_manager=tm)
             sim = Simulator(top)
-    except (Violation, PremiseBroken, Inconclusive, _Alarm):
+    except (Violation, PremiseBroken, Inconclusive, Skip, _Alarm):
         raise
     except Exception as e:
-        if hasattr(scen, "on_elab_error"):
-            scen.on_elab_error(e)  # may raise Violation / return to accept the rejection
+        if hasattr(scen, "on_elab_error") and scen.on_elab_error(e):
+            hasher.update(repr(("rejected", type(e).__name__)).encode())
+            return  # the scenario expected elaboration to be refused (C11 rejection half)
         tb = traceback.extract_tb(e.__traceback__)
         if tb and os.path.abspath(tb[-1].filename).startswith(VERIF_DIR + os.sep):
             raise  # raised by harness code itself: a harness error, not a verdict about the library
         where = f"{os.path.basename(tb[-1].filename)}:{tb[-1].name}" if tb else "?"
+        if not scen.elab_failure_is_violation:
+            raise Skip(f"design did not elaborate ({type(e).__name__} at {where}: {str(e)[:200]})")
         raise Violation("elaboration-failed", f"{type(e).__name__} at {where}: {str(e)[:300]}",
                         exc=type(e).__name__, where=where)
     if hasattr(scen, "on_elab_ok"):
@@ -361,7 +373,7 @@ def _execute(prop, scen: Scenario, cfg, rng, recorded, res, hasher, keep_log, ma
     sim.add_testbench(driver)
     try:
         sim.run()
-    except (Violation, PremiseBroken, Inconclusive, _Alarm):
+    except (Violation, PremiseBroken, Inconclusive, Skip, _Alarm):
         raise
     except Exception as e:
         if hasattr(scen, "on_sim_error"):
